@@ -199,3 +199,14 @@ package taskfile
 //@   nosite http.Get                                                                                           [C20]
 //@   nosite (*Client).Head                                                                                     [C20]
 //@   nosite (*Client).Get                                                                                      [C20]
+
+// ---- C08: the root node. The directory everything else is resolved against (the Executor's Dir, the dir of every
+// include) is the DEFAULTED one - made absolute, taken from the entrypoint when none was given - for every kind of
+// root, the Taskfile read from stdin included
+//@ ghost var rootDir string scratch
+//@ func NewRootNode
+//@   site fsext.DefaultDir#0 requires arg0 == entrypoint && arg1 == dir                                        [C08]
+//@   site fsext.DefaultDir#1 ghost rootDir := result
+//@   site NewStdinNode#0 requires arg0 == rootDir                                                              [C08]
+//@   site NewNode#0 requires arg0 == entrypoint && arg1 == rootDir && arg2 == insecure                         [C08,C20]
+
